@@ -11,8 +11,8 @@ META = {
 
 
 def run(run, model):
-    run.do(marker.report_rule, model, "C11.release-on-all-exits", marker.MARKER_REGIONS, "no exit (return, raise, exception or cancellation edge of any statement) is reached with the marker held")
-    run.do(marker.report_rule, model, "C10.own-release", marker.MARKER_REGIONS, "the state after the activation equals the state before it: removal by the owner only, or restore of the entry snapshot", as_rule="C11.exact-restore")
+    run.do(marker.report_rule, model, "C11.release-on-all-exits", marker.MARKER_REGIONS_ALL, "no exit (return, raise, exception or cancellation edge of any statement) is reached with the marker held")
+    run.do(marker.report_rule, model, "C10.own-release", marker.MARKER_REGIONS_ALL, "the state after the activation equals the state before it: removal by the owner only, or restore of the entry snapshot", as_rule="C11.exact-restore")
     run.do(marker.finally_clean, model)
     run.do(effects.handlers_rule, model)
     run.do(effects.lazy_user_code, model)
